@@ -96,7 +96,9 @@ func (l *AttributeList) Add(oid asn1.ObjectIdentifier, obj interface{}) error {
 func appendAttr(attrList AttributeList, oid asn1.ObjectIdentifier, value []byte) AttributeList {
 	for i, attr := range attrList {
 		if attr.Type.Equal(oid) {
-			attr.Values.Bytes = append(attr.Values.Bytes, value...)
+			// copy first: Bytes may alias the buffer the structure was parsed from
+			attr.Values.Bytes = append(append([]byte(nil), attr.Values.Bytes...), value...)
+			attr.Values.FullBytes = nil
 			attrList[i] = attr
 			return attrList
 		}
